@@ -69,7 +69,7 @@ impl RequestHandler<PrepareRenameRequest> for PrepareRenameRequestHandler {
                 if !codegen
                     .analysis()
                     .find(
-                        file_path.to_str().unwrap(),
+                        file_path.to_string_lossy().as_ref(),
                         LineCol {
                             line: source_line,
                             column: source_column,
